@@ -313,6 +313,26 @@ def run_case(run, spec):
         if list(res) != [_expect_token(m) for m in model]:
             run.violation("getall-slowpath", f"utils.getall(stack,'x')={_short(res)} differs from the per-sample tokens {_short([_expect_token(m) for m in model])} (inner layers were asked before)")
             return
+        # parts of a concat that share ONE root, each with a layer that owns resources: dispose() reaches every such layer
+        if spec["seed"] % 16 == 0:
+            from .harness import DisposeWrapper
+            root = Leaf(5, tag="S")
+            a = DisposeWrapper(root)
+            b = DisposeWrapper(_kd.KDSubset(root, [2, 0, 1]))
+            c3 = DisposeWrapper(kdw.ShuffleWrapper(root, seed=3))
+            order = [[a, b, c3], [b, a], [c3, b, a]][(spec["seed"] // 16) % 3]
+            top = _kd.KDConcatDataset(order)
+            if (spec["seed"] // 48) % 2:
+                top = PassWrapper(top)
+            ok, _ = call_real(run, lambda: top.dispose(), what="dispose() of a concat whose parts share a root")
+            if not ok:
+                return
+            run.count("shared_root_disposals_checked")
+            missed = [type(w.dataset).__name__ for w in order if w.own_disposed < 1]
+            if missed or root.disposed < 1:
+                run.violation("dispose-shared-root", f"dispose() of a concat of {len(order)} parts over one shared root did not reach the resource-owning layer of the part(s) over {missed} "
+                                                     f"(root reached {root.disposed} times)")
+                return
         # a non-integer item (confidence / weight per sample) through all four helpers: values must survive every conversion
         want_conf = [B.leaves[m[1]].conf_of(m[2]) for m in model]
         for fn in (gat.getall, gat.getall_as_list, gat.getall_as_numpy, gat.getall_as_tensor):
@@ -323,7 +343,13 @@ def run_case(run, spec):
                 got_conf = [float(v) for v in res]
             except Exception:
                 got_conf = None
-            if got_conf != want_conf:
+            if fn in (gat.getall_as_tensor, gat.getall_as_numpy) and got_conf is not None and len(got_conf) == len(want_conf):
+                # torch.tensor(list of python floats) is single precision by torch's own default (the numpy helper converts through it):
+                # judged to float32 accuracy
+                same = all(abs(a - b) <= 1e-6 * max(1.0, abs(b)) for a, b in zip(got_conf, want_conf))
+            else:
+                same = got_conf == want_conf   # list / numpy results keep the doubles exactly
+            if not same:
                 run.violation("getall-helper-value:float-item", f"utils.{fn.__name__}(stack,'conf')={_short(res)} but the per-sample values are {_short(want_conf)}")
                 return
             run.count("getall_checked")
